@@ -252,7 +252,38 @@ def observe_func(d, fn, imports=None):
         elif op["op"] in ("call", "wait", "field", "close", "vardecl"):
             seen_other = True
     results = fn["results"]
-    return dict(name=fn["name"], params=[p["type"] for p in params], param_names=[p["name"] for p in params], results=results,
+    # surface rules of the emitted text (wait flavours, error-return forms, errgroup declaration, := vs =): the part of the
+    # generator model that Sem2's ctxaware / p_reterr encode, checked on the text itself
+    surf = []
+    reterr_ = (len(results) == 2 and results[1] == "error")
+    has_gos = len(threads) > 1
+    ctxparams = [p["name"] for p in params if p["type"] == CTX]
+    if has_gos:
+        if not fn["eg"].startswith("ctx:") or not ctxparams or fn["eg"].split(":")[1] != ctxparams[0]:
+            surf.append("goroutines exist but the errgroup is not derived from the context parameter (eg=%r, ctx params %s)" % (fn["eg"], ctxparams))
+    for ti, th in enumerate([main] + gos):
+        for it in th:
+            wc = it.get("wait_ctx")
+            if wc:
+                want_ctx = True if ti > 0 else reterr_
+                if wc[0] != want_ctx:
+                    surf.append("%s wait before provider %d is %s" % ("goroutine" if ti else "main-thread", it["pi"], "a plain receive (not ctx-aware)" if not wc[0] else "ctx-aware although the injector has no error result"))
+                if wc[0] and ((ti > 0 and wc[1] != "plain") or (ti == 0 and not wc[1].startswith("zero:"))):
+                    surf.append("ctx branch of the wait before provider %d returns through form %r" % (it["pi"], wc[1]))
+            if it["fall"]:
+                er = it.get("errret", "")
+                ok_form = (ti > 0 and er == "plain") or (ti == 0 and reterr_ and er.startswith("zero:"))
+                if not ok_form:
+                    surf.append("error of fallible provider %d is handled through form %r" % (it["pi"], er))
+            if it.get("define") == has_gos and it["pi"] < len(d["provs"]):
+                surf.append("provider %d assigned with %s although the injector %s its variables" % (it["pi"], ":=" if it.get("define") else "=", "predeclares" if has_gos else "does not predeclare"))
+    egw = [op for op in msurf if op["op"] == "egwait"]
+    if has_gos:
+        if len(egw) != 1 or (reterr_ and (egw[0]["form"] != "if" or egw[0].get("errret") != "nilerr")) or (not reterr_ and egw[0]["form"] != "discard"):
+            surf.append("eg.Wait() form %s does not match the injector's results" % egw)
+    elif egw:
+        surf.append("eg.Wait() without goroutines")
+    return dict(surface_problems=surf, name=fn["name"], params=[p["type"] for p in params], param_names=[p["name"] for p in params], results=results,
                 reterr=(len(results) == 2 and results[1] == "error"), main=main, gos=gos, go_first=go_first,
                 defects=["variable %s is read but never assigned" % v for _, v in defects],
                 eg=fn["eg"], has_var=fn["has_var"], vars=fn["vars"], surface=msurf, tt=tt)
@@ -419,6 +450,31 @@ def run_cases(cases, workdir, name="cases", progs=None):
     return ok, bad, log, chk
 
 
+def isolate(mod, name, d):
+    """Generate one declaration alone in its own package (failing-input search: removes cross-injector effects).
+    Returns dict(pkg, decl, obs|None, sig|None, rc, stderr)."""
+    kessoku = vlib.build_kessoku()
+    bandparse = vlib.build_tool("bandparse")
+    pkg = dict(name=name, files=[dict(fname="a.go", decls=[d])], kind="valid")
+    pdir = write_package(mod, pkg)
+    rc, out, err = run_generator(kessoku, pdir, pkg)
+    rec = dict(pkg=name, decl=d, obs=None, sig=None, rc=rc, stderr=err[-600:], problems=[], id=-1, kind="valid", name=d["name"], file="a.go")
+    band = os.path.join(pdir, "a_band.go")
+    if rc != 0 or not os.path.exists(band):
+        return rec
+    rc2, o2, e2 = vlib.run([bandparse, band], timeout=60)
+    bf = json.loads(o2)[band]
+    funcs = {fn["name"]: fn for fn in bf["funcs"]} if not bf.get("error") else {}
+    if d["name"] in funcs:
+        fnrec = funcs[d["name"]]
+        rec["sig"] = dict(params=[unalias(p["type"], bf["imports"]) for p in fnrec["params"]], results=[unalias(t, bf["imports"]) for t in fnrec["results"]])
+        try:
+            rec["obs"] = observe_func(d, fnrec, bf["imports"])
+        except Unparsed as ex:
+            rec["problems"].append("unparsed: %s" % ex)
+    return rec
+
+
 # ------------------------------------------------------------------ the stage
 
 def stage(seed, tier, want_malformed=True):
@@ -539,6 +595,8 @@ def _stage(seed, tier, want_malformed):
             r["obs_prog"] = progs[r["id"]][0]
         if r.get("obs") and r["obs"].get("defects"):
             r["problems"] += r["obs"]["defects"]
+        if r.get("obs") and r["obs"].get("surface_problems"):
+            r["problems"] += ["surface: " + x for x in r["obs"]["surface_problems"]]
     badmap = dict(bad)
     for r in records:
         r["model_mismatch"] = r["id"] in badmap
